@@ -78,8 +78,11 @@ def generate(rng, tier) -> dict:
     for _ in range(50):
         spec = gen_files(rng, name, tier)
         N = sum(spec["nsamps"])
-        if rng.random() < 0.5:
+        r = rng.random()
+        if r < 0.4:
             start, nsamps = 0, None
+        elif r < 0.55:
+            start, nsamps = rng.randint(0, N - 1), None  # nsamps left at its default
         else:
             start = rng.randint(0, N - 1)
             nsamps = rng.randint(1, N - start)
@@ -125,7 +128,8 @@ def fixup(sc):
         o["gulp"] = max(1, o["gulp"])
         if "start" in o:
             o["start"] = max(0, min(o["start"], N - 1))
-            o["nsamps"] = max(1, min(o["nsamps"], N - o["start"]))
+            if o["nsamps"] is not None:
+                o["nsamps"] = max(1, min(o["nsamps"], N - o["start"]))
     for o in sc.get("pre", []):
         o["start"] = max(0, min(o["start"], N - 1))
         o["nsamps"] = max(1, min(o["nsamps"], N - o["start"]))
